@@ -221,7 +221,10 @@ def batches(ctx):
         _prime_eval(B, out, c, lambda o: (o.reconciliation_cost(), o.labeling_cost(), o.cost()))
         rc = R.ext_of(out.reconciliation_cost())
         try:
-            lc = int(out.labeling_cost())
+            v = out.labeling_cost()
+            if v == float("inf"):          # an invalid labelled reconciliation: an assertion or an infinite cost, both mean "no cost"
+                raise AssertionError
+            lc = int(v) if v == int(v) else v
             tot = R.ext_of(out.cost())
         except AssertionError:
             lc, tot = None, None
